@@ -323,7 +323,7 @@ def gen_cases(run):
     tasks = ['reg1', 'reg2', 'bin', 'multi']
     routings = ['hard', 'soft', 'tuned']
     threads = [None, 1, 3]
-    envs = [None, 'max_split_size_mb:64', 'expandable_segments:True']
+    envs = [None, 'max_split_size_mb:64', 'expandable_segments:True', '']     # '' = set but empty
     splits = ['top_vector_agop_on_subset', 'random_agop_on_subset', 'top_pc_agop_on_subset', 'random_pca', 'pca', 'linear',
               'rf_criterion', 'fixed_vector', 'random']
     n_main = 48 if run.tier == 'quick' else 800
@@ -341,7 +341,7 @@ def gen_cases(run):
             split = 'pca'
         cases.append(dict(
             family='call-sequences', kernel=kernel, diag=(k % 3 == 1) and kernel != 'sum_power_laplace', task=task,
-            routing=routings[k % 3], n_threads=threads[(k // 3) % 3], env0=envs[(k // 2) % 3],
+            routing=routings[k % 3], n_threads=threads[(k // 3) % 3], env0=envs[(k // 2) % 4],
             threads0=[2, 4][k % 2], container_x=cx, container_y=cy, n=n, d=r.choice([3, 5]), max_leaf_size=L,
             iters=r.choice([0, 1, 1, 2]), split_method=split, seed=r.randint(0, 10 ** 6), dseed=r.randint(0, 10 ** 6),
             classification_mode=r.choice(['zero_one', 'prevalence']), n_trees=r.choice([1, 1, 2]),
